@@ -218,6 +218,11 @@ func runIsolation(cfg Config) {
 		}
 		bs := match.Bindings{"keep": "me", "nested": map[string]interface{}{"deep": map[string]interface{}{"v": 1.0}}, "list": []interface{}{1.0, 2.0}, "n": float64(g.Intn(5)),
 			"orders": []interface{}{map[string]interface{}{"paid": false}, []interface{}{map[string]interface{}{"x": 1.0}}}, "rand": g.Value(3)}
+		if i%4 == 3 {
+			// bindings a host built by hand: Go-typed compounds, nothing generic at the top level
+			bs = match.Bindings{"keep": "me", "n": float64(g.Intn(5)), "tags": []string{"a", "b"}, "attrs": map[string]string{"k": "v"},
+				"counts": []int{1, 2}}
+		}
 		bs0 := gen.Canon(map[string]interface{}(bs))
 		props := core.StepProps{"top": "orig", "nested": map[string]interface{}{"k": 1.0}}
 		props0 := gen.Canon(map[string]interface{}(props))
